@@ -319,7 +319,9 @@ impl<'a> Reader<'a> {
                 'e' => '\x1b',
                 's' => ' ',
                 'd' => '\x7f',
-                '(' | ')' | '[' | ']' | '\\' | ';' | '|' | '\'' | '`' | '#' | '.' | ',' | '"' | '?' => e,
+                // a backslash before any other punctuation character stands for
+                // that character; `\^` starts the control-character syntax
+                p if (p.is_ascii_punctuation() || p == ' ') && p != '^' => p,
                 _ => return self.err("unsupported character escape"),
             }
         } else {
